@@ -579,6 +579,20 @@ func (c *Context) Sqrt(d, x *Decimal) (Condition, error) {
 		d.Set(&approx)
 		d.Exponent += int32(e / 2)
 		res = nc.round(d, d)
+		if d.Form == Finite {
+			// The discarded digits of approx can all be zero although the root
+			// is not exact: it is exact only if its square is the operand.
+			exact := BaseContext.WithPrecision(0)
+			exact.Traps = 0
+			var sq Decimal
+			exact.Mul(&sq, d, d)
+			if sq.Cmp(x) != 0 {
+				res |= Inexact | Rounded
+				if res.Subnormal() {
+					res |= Underflow
+				}
+			}
+		}
 		return nc.goError(res)
 	}
 	exact := BaseContext.WithPrecision(0)
